@@ -12,6 +12,7 @@ import (
 	"os"
 	"os/exec"
 	"path/filepath"
+	"regexp"
 	"sort"
 	"strings"
 	"sync"
@@ -114,7 +115,18 @@ func Generate(name, grammar string, opts []string) (*GenProgram, error) {
 	if out, err := runCmd(gp.Dir, t.Peg, args...); err != nil {
 		return nil, fmt.Errorf("peg %s: %v\n%s", strings.Join(args, " "), err, out)
 	}
-	_ = os.WriteFile(filepath.Join(gp.Dir, "go.mod"), []byte("module m\n\ngo 1.26\n"), 0o644)
+	_ = os.WriteFile(filepath.Join(gp.Dir, "go.mod"), []byte("module m\n\ngo 1.26\n\nrequire github.com/pointlander/peg v0.0.0\n\nreplace github.com/pointlander/peg => "+repoDir+"\n"), 0o644)
+	// hand-written companions of a shipped grammar (types used by its actions)
+	if ents, err := os.ReadDir(filepath.Dir(grammar)); err == nil && strings.HasPrefix(grammar, filepath.Join(repoDir, "grammars")+"/") {
+		for _, e := range ents {
+			nm := e.Name()
+			if strings.HasSuffix(nm, ".go") && !strings.HasSuffix(nm, "_test.go") && !strings.HasSuffix(nm, ".peg.go") {
+				if data, err := os.ReadFile(filepath.Join(filepath.Dir(grammar), nm)); err == nil {
+					_ = os.WriteFile(filepath.Join(gp.Dir, nm), data, 0o644)
+				}
+			}
+		}
+	}
 	dump := filepath.Join(gp.Dir, "tree.json")
 	out, err := runCmd(gp.Dir, t.TreeDump, grammar)
 	if err != nil {
@@ -198,8 +210,47 @@ func (gp *GenProgram) setupSpec() {
 	for _, r := range gp.Spec.Rules {
 		walk(r.Body)
 	}
+	// user state: fields of the parser struct assigned by state-change code (and by inline actions
+	// when there is no AST) may change across any rule call
+	if fi := u.Funcs[gp.structName()+".Init"]; fi != nil {
+		re := regexp.MustCompile(`p\.(\w+)\s*(\+\+|--|\+=|-=|\*=|=[^=])`)
+		written := map[string]bool{}
+		var scan func(n *PNode)
+		scan = func(n *PNode) {
+			if n.TypeName == "StateChange" || (n.TypeName == "Action" && !gp.Ast) {
+				for _, m := range re.FindAllStringSubmatch(n.Str, -1) {
+					written[m[1]] = true
+				}
+			}
+			for _, c := range n.Kids {
+				scan(c)
+			}
+		}
+		for _, r := range gp.Spec.Rules {
+			scan(r.Body)
+		}
+		if gen := u.CS.Funcs["Init.$rule"]; gen != nil && len(written) > 0 {
+			m := &ModClause{Text: "user state written by state-change code"}
+			for _, f := range sortedKeys(written) {
+				m.Fields = append(m.Fields, gp.structName()+"."+f)
+			}
+			gen.Modifies = append(gen.Modifies, m)
+			if mr := u.CS.Funcs["Init.memoizedResult"]; mr != nil {
+				mr.Modifies = append(mr.Modifies, m)
+			}
+		}
+	}
 	u.Provider = gp.provider
 	u.NoSplit = map[string]bool{"RT": true, "inputOK": true}
+}
+
+func (gp *GenProgram) structName() string {
+	for k := range gp.Unit.Funcs {
+		if strings.HasSuffix(k, ".Init") {
+			return strings.TrimSuffix(k, ".Init")
+		}
+	}
+	return ""
 }
 
 // provider resolves calls of rule closures: _rules[ruleX]() and p.rules[r]().
@@ -301,25 +352,26 @@ func (gp *GenProgram) closureContract(r *PRule, inlined func(string) *PRule) (*F
 
 func (gp *GenProgram) starInvariant(s *PNode, ord int) []*Clause {
 	k := s.k
-	texts := []string{
-		"RT()",
-		fmt.Sprintf("trig_%d(position)", k),
-		"entry(position) <= position && entry(tokenIndex) <= tokenIndex",
-		fmt.Sprintf("E_%d(position) == E_%d(entry(position))", k, k),
+	texts := [][2]string{
+		{"RT()", "C13"},
+		{fmt.Sprintf("trig_%d(position)", k), "C01"},
+		{"entry(position) <= position && entry(tokenIndex) <= tokenIndex", "C01,C03"},
+		{fmt.Sprintf("E_%d(position) == E_%d(entry(position))", k, k), "C01"},
 	}
 	if gp.Ast {
 		texts = append(texts,
-			fmt.Sprintf("A_%d(position, live()) == A_%d(entry(position), entry(live()))", k, k),
-			fmt.Sprintf("M_%d(position, maxToken) == M_%d(entry(position), entry(maxToken))", k, k),
-			"forall(j, imp(j <= entry(tokenIndex), absAt(j) == entry(absAt(j))))")
+			[2]string{fmt.Sprintf("A_%d(position, live()) == A_%d(entry(position), entry(live()))", k, k), "C03"},
+			[2]string{fmt.Sprintf("M_%d(position, maxToken) == M_%d(entry(position), entry(maxToken))", k, k), "C11"},
+			[2]string{"forall(j, imp(j <= entry(tokenIndex), absAt(j) == entry(absAt(j))))", "C03"})
 	}
 	var out []*Clause
-	for i, t := range texts {
+	for i, tt := range texts {
+		t := tt[0]
 		e, err := parseExpr(t)
 		if err != nil {
 			panic(err)
 		}
-		out = append(out, &Clause{Name: fmt.Sprintf("inv[%d][%d]", ord, i), Text: t, Expr: e})
+		out = append(out, &Clause{Name: fmt.Sprintf("inv[%d][%d]", ord, i), Text: t, Expr: e, Tag: tt[1]})
 	}
 	return out
 }
@@ -363,6 +415,12 @@ func (gp *GenProgram) verifyClosures(r *Run, only map[string]bool) {
 		fmt.Sscanf(key, "Init.$rules%d", &c)
 		pr := byConst[c]
 		fname := u.Name + "/" + key
+		if pr != nil {
+			fname += "(" + pr.Name + ")"
+		}
+		if pr == nil && only != nil {
+			continue
+		}
 		if pr == nil {
 			// closures of Action rules (and other synthesised rules) have no grammar rule: their row is in the prelude
 			fc := u.CS.Funcs["Init.$rule"]
@@ -379,7 +437,7 @@ func (gp *GenProgram) verifyClosures(r *Run, only map[string]bool) {
 			r.Fns = append(r.Fns, FnReport{Key: fname, Reason: err.Error()})
 			continue
 		}
-		extra := ""
+		extra := gp.Spec.ruleDefs[pr.Name]
 		if gp.Inline {
 			// rows of the rules inlined into this closure (each is referenced once: no recursion)
 			seen := map[string]bool{}
@@ -388,8 +446,8 @@ func (gp *GenProgram) verifyClosures(r *Run, only map[string]bool) {
 				if n.TypeName == "Name" {
 					if ir := inlined(n.Str); ir != nil && !seen[n.Str] {
 						seen[n.Str] = true
-						extra += gp.Spec.RuleRow(ir)
 						add(ir.Body)
+						extra = gp.Spec.ruleDefs[ir.Name] + extra + gp.Spec.RuleRow(ir)
 					}
 				}
 				for _, ch := range n.Kids {
